@@ -505,6 +505,20 @@ func genEvSets(rng *rand.Rand) []evGenSet {
 	n := weighted(rng, 4, 30, 36, 30)
 	var out []evGenSet
 	seen := map[string]bool{}
+	if rng.Intn(15) == 0 {
+		// a crowd: 11 .. 24 sets in one namespace, most of them with one and the same selector (every one of them must be woken by a
+		// matching orphan, however many there are)
+		crowd := 11 + rng.Intn(14)
+		common := pick(rng, evSelPool...)
+		for i := 0; i < crowd; i++ {
+			s := evGenSet{ns: "n1", name: fmt.Sprintf("m%02d", i), uid: "u" + strconv.Itoa(1+rng.Intn(3)), sel: common}
+			if rng.Intn(6) == 0 {
+				s.sel = pick(rng, evSelPool...)
+			}
+			out = append(out, s)
+		}
+		return out
+	}
 	for len(out) < n {
 		s := evGenSet{ns: "n1", name: pick(rng, evNamePool...), uid: "u" + strconv.Itoa(1+rng.Intn(3)), sel: pick(rng, evSelPool...)}
 		if rng.Intn(8) == 0 {
